@@ -416,7 +416,6 @@ def minimal_m_separator(
 
     anterior_nodes_G = _anterior(G_copy, nodeset)
     G_copy.remove_nodes_from(set(G_copy.nodes()) - anterior_nodes_G)
-    G_p = G_copy.copy()
     aug_G_p = pywhy_nx.mixed_edge_moral_graph(
         G_copy,
         directed_edge_name=directed_edge_name,
@@ -425,8 +424,6 @@ def minimal_m_separator(
     )
     for node in i:
         aug_G_p.remove_node(node)
-    for node in i:
-        G_p.remove_node(node)
 
     z_prime = r.intersection(
         _anterior(G_copy, {x, y}, directed_edge_name, undirected_edge_name)
@@ -438,12 +435,15 @@ def minimal_m_separator(
     z_dprime = _bfs_with_marks(aug_G_p, x, z_prime)
     z = _bfs_with_marks(aug_G_p, y, z_dprime)
 
+    # the nodes of i were only deleted from the moralized graph; the separator that has to be
+    # tested is z together with i, conditioned on in the graph itself
+    z = z.union(i)
     if not m_separated(
-        G_p, {x}, {y}, z, directed_edge_name, bidirected_edge_name, undirected_edge_name
+        G, {x}, {y}, z, directed_edge_name, bidirected_edge_name, undirected_edge_name
     ):
         return None
 
-    return z.union(i)
+    return z
 
 
 # XXX: If networkx makes the corresponding function in `d_separation.py` public, then we can
